@@ -16,12 +16,13 @@ use serde::{Deserialize, Serialize};
 use std::sync::Arc;
 use vrp_core::construction::features::{
     CapacityFeatureBuilder, JobReadValueFn, MinimizeUnassignedBuilder, TransportFeatureBuilder,
-    create_maximize_total_job_value_feature, create_maximize_tours_feature, create_minimize_tours_feature,
+    create_activity_limit_feature, create_maximize_total_job_value_feature, create_maximize_tours_feature, create_minimize_tours_feature,
+    create_travel_limit_feature,
 };
 use vrp_core::construction::heuristics::{InsertionContext, InsertionSuccess, UnassignmentInfo};
 use vrp_core::models::common::{Demand, Schedule, SingleDimLoad, TimeWindow};
 use vrp_core::models::problem::{
-    Actor, Job, JobIdDimension, JobPlaceBuilder, MatrixData, MultiBuilder, Single, SingleBuilder, TransportCost, VehicleBuilder, create_matrix_transport_cost,
+    Actor, Job, JobIdDimension, JobPlaceBuilder, MatrixData, MultiBuilder, SimpleActivityCost, Single, SingleBuilder, TransportCost, VehicleBuilder, create_matrix_transport_cost,
     VehicleDetailBuilder, VehicleIdDimension,
 };
 use vrp_core::models::solution::{Activity, Place as ActivityPlace};
@@ -33,6 +34,10 @@ use vrp_core::rosomaxa::utils::Parallelism;
 pub const CODE_TIME: i32 = 1;
 /// Violation code given to the capacity feature.
 pub const CODE_CAPACITY: i32 = 2;
+/// Violation codes given to the tour limit features.
+pub const CODE_MAX_DISTANCE: i32 = 3;
+pub const CODE_MAX_DURATION: i32 = 4;
+pub const CODE_TOUR_SIZE: i32 = 5;
 
 // ---------------------------------------------------------------------------------------------
 // spec (plain data, no vrp-core types)
@@ -170,6 +175,19 @@ pub struct VehicleSpec {
     pub per_distance: f64,
     /// one price for driving, serving and waiting time
     pub per_time: f64,
+    /// tour limits (the pragmatic `limits`): total distance, total duration (end of tour - departure), job activities
+    #[serde(default)]
+    pub max_distance: Option<f64>,
+    #[serde(default)]
+    pub max_duration: Option<f64>,
+    #[serde(default)]
+    pub tour_size: Option<usize>,
+}
+
+impl VehicleSpec {
+    pub fn has_limits(&self) -> bool {
+        self.max_distance.is_some() || self.max_duration.is_some() || self.tour_size.is_some()
+    }
 }
 
 /// One activity of a tour: which task of which job, served at which place within which of its windows.
@@ -286,6 +304,12 @@ pub enum SimFail {
     PairOrder { at: usize },
     /// dynamic pickup whose delivery is not in the tour
     Unpaired,
+    /// total distance of the tour above the vehicle's distance limit
+    MaxDistance { by: f64 },
+    /// duration of the tour (end - departure) above the vehicle's duration limit
+    MaxDuration { by: f64 },
+    /// more job activities than the vehicle's tour size limit
+    TourSize { by: usize },
 }
 
 impl SimFail {
@@ -295,6 +319,9 @@ impl SimFail {
             SimFail::ShiftEnd { .. } => "shift-end",
             SimFail::Overload { .. } | SimFail::Underload { .. } => "capacity",
             SimFail::PairOrder { .. } | SimFail::Unpaired => "pair-order",
+            SimFail::MaxDistance { .. } => "max-distance",
+            SimFail::MaxDuration { .. } => "max-duration",
+            SimFail::TourSize { .. } => "tour-size",
         }
     }
 }
@@ -320,7 +347,8 @@ pub struct SimReport {
 /// arrival = previous departure + travel duration; service starts at max(arrival, window start); infeasible when the
 /// arrival is after the window end; a closed tour must be back not later than the shift end; static deliveries are on
 /// board from the start, static pickups stay to the end, a dynamic pickup adds and its delivery (later in the tour)
-/// removes; the load is within [0, capacity] all the time.
+/// removes; the load is within [0, capacity] all the time; with tour limits: total distance, duration (end of the tour minus
+/// departure) and number of job activities stay within them.
 pub fn simulate(geo: &Geo, veh: &VehicleSpec, stops: &[SimStop]) -> Result<SimReport, SimFail> {
     let mut rep = SimReport::default();
     let mut load: i32 = stops.iter().filter(|s| matches!(s.kind, Kind::Delivery | Kind::Exchange(_))).map(|s| s.size).sum();
@@ -383,6 +411,15 @@ pub fn simulate(geo: &Geo, veh: &VehicleSpec, stops: &[SimStop]) -> Result<SimRe
         time = arrival;
     }
     rep.duration = time - veh.start_time;
+    if let Some(limit) = veh.tour_size.filter(|limit| stops.len() > *limit) {
+        return Err(SimFail::TourSize { by: stops.len() - limit });
+    }
+    if let Some(limit) = veh.max_distance.filter(|limit| rep.distance > *limit) {
+        return Err(SimFail::MaxDistance { by: rep.distance - limit });
+    }
+    if let Some(limit) = veh.max_duration.filter(|limit| rep.duration > *limit) {
+        return Err(SimFail::MaxDuration { by: rep.duration - limit });
+    }
     Ok(rep)
 }
 
@@ -521,6 +558,35 @@ fn build_goal(spec: &MicroSpec, transport: Arc<dyn TransportCost>) -> Result<vrp
     }
     if !spec.capacity_first {
         features.push(capacity);
+    }
+    // tour limits of the vehicles (hard constraints without an objective), as the pragmatic reader sets them up
+    let index_of = |actor: &Actor| actor.vehicle.dimens.get_vehicle_id().and_then(|id| id[1..].parse::<usize>().ok());
+    if spec.vehicles.iter().any(|v| v.max_distance.is_some() || v.max_duration.is_some()) {
+        let distances: Vec<Option<f64>> = spec.vehicles.iter().map(|v| v.max_distance).collect();
+        let durations: Vec<Option<f64>> = spec.vehicles.iter().map(|v| v.max_duration).collect();
+        features.push(
+            create_travel_limit_feature(
+                "tour_limits",
+                transport.clone(),
+                Arc::new(SimpleActivityCost::default()),
+                ViolationCode(CODE_MAX_DISTANCE),
+                ViolationCode(CODE_MAX_DURATION),
+                Arc::new(move |actor: &Actor| index_of(actor).and_then(|idx| distances.get(idx).copied().flatten())),
+                Arc::new(move |actor: &Actor| index_of(actor).and_then(|idx| durations.get(idx).copied().flatten())),
+            )
+            .map_err(err)?,
+        );
+    }
+    if spec.vehicles.iter().any(|v| v.tour_size.is_some()) {
+        let sizes: Vec<Option<usize>> = spec.vehicles.iter().map(|v| v.tour_size).collect();
+        features.push(
+            create_activity_limit_feature(
+                "tour_size",
+                ViolationCode(CODE_TOUR_SIZE),
+                Arc::new(move |actor: &Actor| index_of(actor).and_then(|idx| sizes.get(idx).copied().flatten())),
+            )
+            .map_err(err)?,
+        );
     }
     GoalContextBuilder::with_features(&features).map_err(err)?.build().map_err(err)
 }
@@ -715,6 +781,8 @@ pub struct GenCfg {
     pub layers: Vec<Layer>,
     /// random prices / fixed costs / job values (otherwise distance price 1, everything else 0)
     pub priced: bool,
+    /// share of the tours whose vehicle gets tour limits (distance / duration / size) just above what the tour uses
+    pub p_limits: f64,
 }
 
 fn gen_geo(rng: &mut Rng) -> Geo {
@@ -746,6 +814,9 @@ fn gen_vehicle(rng: &mut Rng, geo: &Geo, priced: bool) -> VehicleSpec {
         fixed: if priced { *rng.pick(&[0., 5., 17., 100.]) } else { 0. },
         per_distance: if priced { *rng.pick(&[1., 1., 2., 3., 0.]) } else { 1. },
         per_time: if priced { *rng.pick(&[0., 1., 2., 0.5]) } else { 0. },
+        max_distance: None,
+        max_duration: None,
+        tour_size: None,
     }
 }
 
@@ -951,6 +1022,25 @@ pub fn gen_case(rng: &mut Rng, cfg: &GenCfg) -> Case {
         // size classes: mostly small (every position matters), sometimes up to the maximum
         let n = if rng.chance(0.6) { rng.range_usize(0, cfg.max_activities.min(4)) } else { rng.range_usize(0, cfg.max_activities) };
         let route = gen_route(rng, &geo, &mut vehicles, vehicle, &mut jobs, n, cfg.priced);
+        if cfg.p_limits > 0. && rng.chance(cfg.p_limits) {
+            // limits = what the tour uses + a small margin; mostly two or three limits together (a check of one of them must
+            // not stand in for another), sometimes one alone
+            let view = MicroSpec { geo: geo.clone(), vehicles: vehicles.clone(), jobs: jobs.clone(), layers: vec![], capacity_first: false };
+            if let Ok(rep) = view.simulate(&route) {
+                let margin = |rng: &mut Rng| *rng.pick(&[0., 0., 1., 2., 3., 5., 10., 30.]);
+                let which = rng.below(8);
+                let v = &mut vehicles[vehicle];
+                if which != 1 && which != 2 {
+                    v.max_distance = Some(rep.distance + margin(rng));
+                }
+                if which != 0 && which != 2 {
+                    v.max_duration = Some(rep.duration + margin(rng));
+                }
+                if which == 2 || which >= 5 {
+                    v.tour_size = Some(route.visits.len() + rng.usize_below(3));
+                }
+            }
+        }
         routes.push(route);
     }
     if cfg.spare_vehicle {
